@@ -4,8 +4,8 @@ package main
 
 import (
 	"fmt"
-	"go/types"
 	"go/token"
+	"go/types"
 	"strings"
 
 	"golang.org/x/tools/go/ssa"
@@ -252,7 +252,6 @@ func c02Narrowing(w *World, r *Report) {
 		r.Ok("C02-c", "partition/gpt", "no narrowing conversion of geometry into on-disk fields", "partition/gpt", "")
 	}
 }
-
 
 // c02SectorUnits: LBA <-> byte conversions use the configured sector size.
 func c02SectorUnits(w *World, r *Report) {
